@@ -22,14 +22,16 @@
      BugMoveNoReset   base(base&&) does not reset _other (planned mutant);
      BugListMoveCtor  list(list&&) ignores empty() (planned mutant).
 
-   Invariants: RingOK, NoDeadRef, NoUAF, NoStaleHead, WalkAgree (forward walk = reverse of
+   Invariants: RingOK, NoDeadRef, NoUAF, NoStaleHead, IterRefines (a held iterator stays valid
+   across operations on other elements), WalkAgree (forward walk = reverse of
    backward walk for every live list) and Refines (the forward walk of every live list is
    member[L] of the abstract specification; live flags agree).  Verdicts about the real
    code are NOT taken from this module (it is a hand transcription) but from traces of
    the real code judged by Membership.tla / RingTrace.tla. *)
 EXTENDS Membership
 
-CONSTANTS BugAssignEmpty, BugMoveUnlinked, BugDtorOneSided, BugMoveNoReset, BugListMoveCtor
+CONSTANTS BugAssignEmpty, BugMoveUnlinked, BugDtorOneSided, BugMoveNoReset, BugListMoveCtor,
+          WithIter   \* TRUE: the model also holds one iterator (iterator_impl.hpp) and steps it
 
 Nodes == 1..(NL + NE)
 HeadN(L) == L
@@ -136,21 +138,49 @@ FwdWalk(r, L) == WalkFrom(r, HeadN(L), r.nx[HeadN(L)], TRUE, <<>>, NL + NE)
 BwdWalk(r, L) == WalkFrom(r, HeadN(L), r.pv[HeadN(L)], FALSE, <<>>, NL + NE)
 
 -----------------------------------------------------------------------------
-VARIABLES ring
-rvars == <<st, hist, ring>>
+(* One held iterator: itv.a = what it denotes abstractly (Membership.tla), itv.r = the node its
+   cur_ points to (0 = none held, -1 = it dangles: what it denoted has been destroyed).
+   iterator_impl.hpp: begin() = iterator{head_.next_}, end() = iterator{&head_},
+   increment: cur_ = cur_->next_, decrement: cur_ = cur_->prev_, equal: cur_ == other.cur_. *)
+VARIABLES ring, itv
+rvars == <<st, hist, ring, itv>>
 
-RInit == Init /\ ring = EmptyR
+NodeOf(it) == IF it.x # 0 THEN ElemN(it.x) ELSE HeadN(it.end)
 
-RNext == \E a \in AllOps :
-           /\ ~ring.uaf            \* the real program has been stopped by the sanitizer
-           /\ Pre(st, a)
-           /\ st' = Eff(st, a)
-           /\ ring' = REff(ring, a)
-           /\ hist' = Append(hist, a)
+IterAll ==
+  {[BaseOp EXCEPT !.op = o, !.l = L] : o \in {"iter_begin", "iter_end"}, L \in Lists}
+  \cup {[BaseOp EXCEPT !.op = o, !.mode = m] : o \in {"iter_inc", "iter_dec"}, m \in {0, 1}}
+  \cup {[BaseOp EXCEPT !.op = "iter_drop"]}
+
+RIter(r, n, a) ==
+  CASE a.op = "iter_begin" -> r.nx[HeadN(a.l)]
+    [] a.op = "iter_end" -> HeadN(a.l)
+    [] a.op = "iter_inc" -> r.nx[n]
+    [] a.op = "iter_dec" -> r.pv[n]
+    [] OTHER -> 0
+
+RInit == Init /\ ring = EmptyR /\ itv = [a |-> NoIter, r |-> 0]
+
+RNext ==
+  \/ \E a \in AllOps :
+       /\ ~ring.uaf            \* the real program has been stopped by the sanitizer
+       /\ Pre(st, a)
+       /\ st' = Eff(st, a)
+       /\ ring' = REff(ring, a)
+       /\ itv' = LET it == IterAfter(itv.a, a)
+                 IN [a |-> it, r |-> IF it = Dangling /\ itv.a # Dangling THEN -1 ELSE itv.r]
+       /\ hist' = Append(hist, a)
+  \/ /\ WithIter
+     /\ \E a \in IterAll :
+          /\ ~ring.uaf
+          /\ IterPre(st, itv.a, a)
+          /\ itv' = [a |-> IterEff(st, itv.a, a), r |-> RIter(ring, itv.r, a)]
+          /\ hist' = Append(hist, a)
+          /\ UNCHANGED <<st, ring>>
 
 RSpec == RInit /\ [][RNext]_rvars
 
-RView == <<st, ring>>
+RView == <<st, ring, itv>>
 
 (* representation invariants *)
 RingOK ==
@@ -189,6 +219,24 @@ HeadlessFrom(start, n, fuel) ==
 NoStaleHead ==
   \A e \in Elems : (st.elive[e] /\ \A L \in Lists : e \notin Range(st.member[L])) =>
     HeadlessFrom(ElemN(e), ring.nx[ElemN(e)], NL + NE)
+
+(* THE ITERATOR INVARIANT: a held iterator keeps pointing at the node of what it denotes, and
+   while that is a live member (or the end of a live list) the node's next_/prev_ are the nodes of
+   the following / preceding member - after any operation on OTHER elements and lists. *)
+IterRefines ==
+  LET it == itv.a IN
+  /\ (~it.held) = (itv.r = 0)
+  /\ (it = Dangling) = (itv.r = -1)
+  /\ (it.held /\ it # Dangling) => itv.r = NodeOf(it)
+  /\ IterValid(st, it) =>
+       /\ ring.alive[itv.r]
+       /\ (CanInc(st, it) => ring.nx[itv.r] = NodeOf(IterInc(st, it)))
+       /\ (CanDec(st, it) => ring.pv[itv.r] = NodeOf(IterDec(st, it)))
+       /\ (it.x = 0 => (ring.nx[itv.r] = itv.r) = IsEmpty(st, it.end))
+
+(* ACTION_CONSTRAINT of the script-emission configs that generate only histories of the
+   operations the statement of C11 names (no unlink) *)
+NoUnlink == hist' = hist \/ hist'[Len(hist')].op # "unlink"
 
 REmit == PrintT("SCRIPT " \o ToJson(hist))
 =============================================================================
